@@ -137,11 +137,46 @@ func TestC17(t *testing.T) {
 		WString: 5, WInteger: 4, WNumber: 4, WBoolean: 2, WArray: 2, WEnum: 3, WRef: 3, WObject: 3,
 		DefWeights:  map[string]int{"enum": 2, "object": 2, "string": 2, "integer": 2, "number": 1},
 		PConstraint: 0.5, PNullable: 0.2, PRequired: 0.5, PFormat: 0.15,
-		Avoid: c.Avoid, Excluded: c.ExcludedMap(), Sat: docs.Satisfiable}
+		Excluded: c.ExcludedMap(), Sat: docs.Satisfiable, FractionalIntBounds: true}
+	// only the JSON/YAML relation is judged here, so non-integral bounds on integers (whose
+	// absolute treatment is an open C05 finding) are part of the domain
+	prof.Avoid = func(sw string) bool { return sw != "ints.fractional_bounds" && c.Avoid(sw) }
 	var cases []*RunCase
 	kinds := map[string]bool{"required": true, "numeric": true, "string": true, "enum": true}
 	res := c.Rapid("gen", c.N(220, 5000), 0, func(rt *rapid.T) {
 		f := prof.File(rt, "prog.json")
+		if rapid.IntRange(0, 2).Draw(rt, "percentname") == 0 && len(f.Root.Props) > 0 {
+			// a property name that is not inert inside a format string
+			i := rapid.IntRange(0, len(f.Root.Props)-1).Draw(rt, "percentprop")
+			old := f.Root.Props[i].Name
+			name := old + rapid.SampledFrom([]string{"%", "%s", "%d%", "%%", "%v_x"}).Draw(rt, "percentsuffix")
+			f.Root.Props[i].Name = name
+			for k, r := range f.Root.Required {
+				if r == old {
+					f.Root.Required[k] = name
+				}
+			}
+			if !f.Root.IsRequired(name) && rapid.Bool().Draw(rt, "percentrequired") {
+				f.Root.Required = append(f.Root.Required, name)
+			}
+			c.Count("shape.percent_in_property_name")
+		}
+		if rapid.IntRange(0, 2).Draw(rt, "fracbool") == 0 {
+			// integer with a non-integral bound in the draft-4 form (boolean exclusive flag)
+			k := float64(rapid.IntRange(-5, 40).Draw(rt, "frack")) + 0.5
+			n := &model.Node{Kind: model.KInteger}
+			ex := &model.Excl{IsBool: true, B: rapid.IntRange(0, 3).Draw(rt, "fracexcl") > 0}
+			if rapid.Bool().Draw(rt, "fracmin") {
+				n.Minimum, n.ExclMin = &k, ex
+			} else {
+				n.Maximum, n.ExclMax = &k, ex
+			}
+			f.Root.Props = append(f.Root.Props, model.Prop{Name: "zfrac", Node: n})
+			if rapid.Bool().Draw(rt, "fracreq") {
+				f.Root.Required = append(f.Root.Required, "zfrac")
+			}
+			c.Count("shape.integer_fractional_bound_boolean_exclusive")
+		}
 		if c.Avoid("yaml.format_types") {
 			stripFormats(c, f)
 		}
